@@ -45,7 +45,9 @@ API
 ``setup(srcdir, builddir, p=None, extra_args=(), backend='ninja', env=None, timeout=300) -> SetupResult``
                                      runs the real ``meson setup`` (stub NINJA); ``.rc .stdout .stderr .messages .ok``
 ``setup_args(p) -> [..]``            -Dlayout=.. etc. derived from the abstract options
-``random_project(rnd, n_targets=8, lang='c', ...) -> p``
+``random_project(rnd, n_targets=8, lang='c', subprojects=True, odd_names=True, installs=True, options=True,
+                 layout=None, custom_inputs=False, alias_runs=False) -> p``
+``random_data_project(rnd) -> p``    language-less project for --backend=none (installs, script tests, options)
 ``ODD_NAMES``                        odd-but-legal target names meson accepts on POSIX
 ``target_var(i)``                    name of the meson variable holding target i
 ``location(t) -> str``               source-relative directory the target is defined in
@@ -605,8 +607,14 @@ def run_meson(args: T.Sequence[str], cwd: T.Union[str, os.PathLike, None] = None
 
 def random_project(rnd: random.Random, n_targets: int = 8, lang: str = 'c', subprojects: bool = True,
                    odd_names: bool = True, installs: bool = True, options: bool = True,
-                   layout: T.Optional[str] = None) -> T.Dict[str, T.Any]:
-    """A seeded random, realizable, collision-free abstract project (names are unique per kind family)."""
+                   layout: T.Optional[str] = None, custom_inputs: bool = False,
+                   alias_runs: bool = False) -> T.Dict[str, T.Any]:
+    """A seeded random, realizable, collision-free abstract project (names are unique per kind family).
+
+    ``custom_inputs``: custom targets may take earlier custom targets as input (whole: ``gen``, indexed:
+    ``genidx``); ``alias_runs``: alias targets may depend on run targets.  Both are off by default so that
+    the projects (and the random stream) other checks were validated with do not change; C04 / C15 switch
+    them on (they expose known defects of meson, see known_findings.d/C04.json, C15.json)."""
     p: T.Dict[str, T.Any] = {
         'name': 'rnd', 'lang': lang,
         'layout': layout or rnd.choice(['mirror', 'mirror', 'flat']),
@@ -693,15 +701,15 @@ def random_project(rnd: random.Random, n_targets: int = 8, lang: str = 'c', subp
                 t['outs'][0] = rnd.choice(['o ut', 'o:ut', 'o$ut']) + f'{i}' + os.path.splitext(t['outs'][0])[1]
             if buildables and rnd.random() < 0.4:
                 t['deps'] = rnd.sample(buildables, 1)
-            if customs and rnd.random() < 0.3:
+            if custom_inputs and customs and rnd.random() < 0.3:
                 t['gen'] = [rnd.choice(customs)]
-            if customs and rnd.random() < 0.2:
+            if custom_inputs and customs and rnd.random() < 0.2:
                 t['genidx'] = [rnd.choice(customs)]
             t['bbd'] = rnd.choice(['unset', 'unset', 'true', 'false'])
             t['install'] = rnd.random() < 0.25
         else:
             runs = [j for j, u in earlier if u['kind'] == 'run']
-            if kind == 'alias' and runs and rnd.random() < 0.5:
+            if alias_runs and kind == 'alias' and runs and rnd.random() < 0.5:
                 t['deps'] = [rnd.choice(runs)]
             elif buildables and rnd.random() < 0.7:
                 t['deps'] = rnd.sample(buildables, min(len(buildables), rnd.randint(1, 2)))
